@@ -44,9 +44,11 @@ func (a *Addr) UnmarshalText(x []byte) error {
 	if err != nil {
 		return err
 	}
-	if _, err = fmt.Sscan(port, &a.Port); err != nil {
+	portNum, err := strconv.ParseUint(port, 10, 16)
+	if err != nil {
 		return err
 	}
+	a.Port = uint16(portNum)
 	a.IP, err = netip.ParseAddr(host)
 	if err != nil {
 		return fmt.Errorf("could not parse ip from: %s, %v", host, err)
